@@ -213,6 +213,7 @@ def send_timeout_table(prog, chk):
     K = prog.const
     DISP, WAIT, ERRS = K("KSI_ASYNC_STATE_WAITING_FOR_DISPATCH"), K("KSI_ASYNC_STATE_WAITING_FOR_RESPONSE"), K("KSI_ASYNC_STATE_ERROR")
     SNDT, MAXR, RDUR = K("KSI_ASYNC_OPT_SND_TIMEOUT"), K("KSI_ASYNC_OPT_MAX_REQUEST_COUNT"), K("KSI_ASYNC_PRIVOPT_ROUND_DURATION")
+    RCVT, CONT = K("KSI_ASYNC_OPT_RCV_TIMEOUT"), K("KSI_ASYNC_OPT_CON_TIMEOUT")
     TMO = K("KSI_NETWORK_SEND_TIMEOUT")
     POLLIN, POLLOUT = 1, 4
     fn = prog.fn("dispatch", "net_tcp_async.c")
@@ -262,6 +263,8 @@ def send_timeout_table(prog, chk):
         inputs = {tp: Ptr("T"), "T->ctx": Ptr("ctx"), "T->sockfd": 5, "T->socketReady": 1, "T->reqQueue": Ptr("Q"), "T->respQueue": Ptr("RQ"), "T->parent": Ptr("PAR"),
                   "T->inLen": 0, "T->roundCount": 7, "T->roundStartAt": 1000, "T->connectedAt": 900,
                   "PAR->options[%d]" % SNDT: 10, "PAR->options[%d]" % MAXR: 7 if limit_reached else 100, "PAR->options[%d]" % RDUR: 1,
+                  # the other time limits have values of their own (2 s, 500 s): a request that has waited 3 s of its 10 s is not late
+                  "PAR->options[%d]" % RCVT: 2, "PAR->options[%d]" % CONT: 500,
                   "REQ->state": DISP, "REQ->reqTime": 1000 - age, "REQ->sentCount": 0, "REQ->len": 40, "REQ->raw": Ptr("RAW"), "REQ->err": 0,
                   "*ERRNO": 11, "ERRNO[0]": 11}
         I = BufInterp(fn, {"RAW": 40, "ERRNO": 1}, inputs=inputs, call_model=succeed_model(prog, ov), on_unknown="stop", prog=prog, loop_bound=6)
